@@ -28,6 +28,10 @@ func ProfileFor(prop, tier string, seed uint64) *Profile {
 		pf.FatP = 0.06
 	}
 	switch prop {
+	case "C02", "C13", "C14", "C17", "C03", "C04":
+		pf.LazyWakeP = 0.3
+	}
+	switch prop {
 	case "C01":
 		pf.TreeEvery = 0
 		switch {
@@ -48,7 +52,7 @@ func ProfileFor(prop, tier string, seed uint64) *Profile {
 		if v == 5 { // deep: one table grown past the first internal-node split (1165 rows) in few, wide statements
 			pf.Stmts = [2]int{85, 130}
 			pf.Tables = [2]int{1, 1}
-			pf.WInsert, pf.WDelete, pf.WUpdate, pf.WCreate, pf.WSelect, pf.WFail, pf.WRestart = 100, 2, 1, 0, 1, 0, 1
+			pf.WInsert, pf.WDelete, pf.WUpdate, pf.WCreate, pf.WSelect, pf.WFail, pf.WRestart = 100, 5, 1, 0, 1, 0, 3
 			pf.MaxRows = 16
 			pf.WideInserts = true
 			pf.CheckEvery = 25
@@ -112,6 +116,19 @@ func ProfileFor(prop, tier string, seed uint64) *Profile {
 			pf.WCreate = 14
 			pf.Stmts = [2]int{25, 60}
 			pf.ContStmts = [2]int{6, 16}
+		}
+		if v == 5 && (thorough || seed%32 == 5) { // deep: log cuts inside the statements that grow the tree to height 3 (costly: one in 32 quick plans)
+			pf.WalStmts = 1
+			pf.Stmts = [2]int{85, 130}
+			pf.Tables = [2]int{1, 1}
+			pf.WInsert, pf.WDelete, pf.WUpdate, pf.WCreate, pf.WSelect, pf.WFail, pf.WRestart = 100, 2, 1, 0, 1, 0, 1
+			pf.MaxRows = 16
+			pf.WideInserts = true
+			pf.CheckEvery = 40
+			pf.BigInsertOnly = true
+			pf.StallP = 0.01
+			pf.ContStmts = [2]int{4, 10}
+			pf.TickModes = []string{"sparse", "late", "none"}
 		}
 		if thorough {
 			pf.WalStmts = 6
